@@ -9,6 +9,7 @@ import z3
 STATS = {"queries": 0, "sat": 0, "unsat": 0, "unknown": 0, "time": 0.0, "by_kind": {}, "xcheck": 0, "xcheck_disagree": 0,
          "xcheck_unknown": 0}
 XCHECK_EVERY = int(os.environ.get("SYMX_XCHECK_EVERY", "0"))  # 0 = off
+XCHECK_MAX_PER_CASE = int(os.environ.get("SYMX_XCHECK_MAX_PER_CASE", "6"))  # one process per case
 _SAMPLES = []
 
 
@@ -43,8 +44,9 @@ def check(assertions, kind="misc", timeout_ms=10000, want_model=False, bounds=No
     model = None
     if r == "sat" and want_model:
         model = s.model()
-    if XCHECK_EVERY and r in ("sat", "unsat") and STATS["queries"] % XCHECK_EVERY == 0:
-        xr = cvc5_check(s.to_smt2(), timeout_ms=max(2000, int(timeout_ms)))
+    if XCHECK_EVERY and r in ("sat", "unsat") and STATS["queries"] % XCHECK_EVERY == 0 and STATS["xcheck"] < XCHECK_MAX_PER_CASE:
+        # second opinion with a short leash: cvc5 gets 3 s (its `unknown` is counted, not held against the query), at most a few per case
+        xr = cvc5_check(s.to_smt2(), timeout_ms=3000)
         STATS["xcheck"] += 1
         if xr == "unknown":
             STATS["xcheck_unknown"] += 1
